@@ -71,10 +71,19 @@ def build(ast, cat, rng, stats, force=None, prefer=None):
         fmt = force or (prefer if prefer in fmts else rng.choice(fmts))
         stats.add((ast[1], fmt))
         if fmt == "L":
-            kids = [gen.leaf(rng, rng.choice(["U4", "A", "B", "I2", "F8"]), n=rng.choice([1, 2])) for _ in range(rng.randint(0, 3))]
+            plainable = rng.random() < 0.5
+            if plainable:
+                # also given as a plain Python list (a list wins over the numeric alternatives by design, its elements are typed
+                # one by one): one-element lists in particular must stay lists
+                kids = [gen.leaf(rng, rng.choice(["U4", "A", "I2", "BOOLEAN"]), n=1) for _ in range(rng.choice([0, 1, 1, 1, 2, 3]))]
+            else:
+                kids = [gen.leaf(rng, rng.choice(["U4", "A", "B", "I2", "F8"]), n=rng.choice([1, 2])) for _ in range(rng.randint(0, 3))]
             tree = ("L", kids)
             typed = sv.V.Array(sv.ANYVALUE, [sv.to_variable(k) for k in kids])
-            return tree, typed, None, [sv.expected_get(k) for k in kids]
+            plain = [_plain_of(k) for k in kids] if plainable else None
+            if plain is not None:
+                stats.add((ast[1], "L-as-plain-list"))
+            return tree, typed, plain, [sv.expected_get(k) for k in kids]
         count = info["count"]
         if count > 0:
             n = rng.choice(sorted({0, 1, max(0, count - 1), count}))
@@ -369,6 +378,18 @@ def _container_in_use_is_extended(ctx):
             new_number = rng.random() < 0.6
             s, f = rng.choice(free) if new_number else rng.choice(sorted(shipped))
             custom = type(f"InUseS{s:02d}F{f:02d}v{step}", (SecsStreamFunction,), {"_stream": s, "_function": f, "_data_format": "< MDLN >"})
+            if not new_number and rng.random() < 0.6:
+                # the short way to write a variant: derive from the catalogued function (numbers and flags are inherited) and
+                # replace the structure only - after the catalogued class itself has been used
+                parent = expected[(s, f)]
+                try:
+                    parent().encode()
+                    parent.get_format()
+                    repr(parent())
+                except Exception:  # noqa: BLE001
+                    pass
+                custom = type(f"DerivedS{s:02d}F{f:02d}v{step}", (parent,), {"_data_format": "< MDLN >"})
+                ctx.count("catalogue.replacements_derived_from_the_catalogued_class_after_it_was_used")
             c.update(custom)
             expected[(s, f)] = custom
             steps.append(f"update(S{s}F{f}{' new number' if new_number else ' replaces catalogued'})")
